@@ -139,6 +139,9 @@ def r_extend(chk, prog, m):
 def r_writers(chk, prog, m):
     chk.rule("C19.R1", "every write into p->buf (memcpy, memset, terminator store) lies inside the allocation on every path")
     chk.rule("C19.R2", "every successful return of an append / fill function leaves a NUL stored at buf[bpos] with bpos < size")
+    chk.rule("C19.R7", "every byte that becomes part of the text during an append / fill - from the length at entry to the length at "
+                       "return - is written by that call (a fill beyond the end writes NULs into the gap), unless no function of the "
+                       "module can leave non-zero bytes above the length")
     chk.rule("C19.R3", "no signed overflow in offset/size arithmetic; a refused request (-1) has written no field; the invariant "
                        "0 <= bpos <= size, capacity(buf) == size holds again at every return")
     for fname in ("printbuf_memappend", "printbuf_memset", "printbuf_reset"):
@@ -147,7 +150,7 @@ def r_writers(chk, prog, m):
         chk.touched(f)
         w = Walker(prog, f, view="signed", contracts={"printbuf_extend": _extend_contract()}, buf_fields={"buf": "size"})
         pname = f.params[0][1]
-        R = {"R1": [0, []], "R2": [0, []], "R3": [0, []]}
+        R = {"R1": [0, []], "R2": [0, []], "R3": [0, []], "R7": [0, []]}
 
         def bound(w, st, ptr, n, i, what):
             R["R1"][0] += 1
@@ -216,16 +219,62 @@ def r_writers(chk, prog, m):
                 R["R2"][1].append((i, "on this successful path no NUL is stored at buf[bpos] (bpos = %r): the text is not terminated" % (bpos,)))
             elif not w.entails(st, bpos + const(1) - size):
                 R["R2"][1].append((i, "terminator position bpos = %r is not shown to be inside the allocation (size %r)" % (bpos, size)))
+            # content coverage: every byte that becomes part of the text in this call, [bpos at entry, bpos at return), is written by it
+            if isinstance(bpos, Lin) and isinstance(buf, Ptr):
+                R["R7"][0] += 1
+                x = entry_bpos
+                writes = [e for e in st.events if e[0] == "bufwrite" and e[1].base == buf.base]
+                progress = True
+                rounds = 0
+                while progress and rounds < 8 and not w.entails(st, bpos - x):
+                    progress = False
+                    rounds += 1
+                    for e in writes:
+                        off, nn = e[1].off, e[2]
+                        if w.entails(st, off - x) and w.entails(st, x - off - nn) and not w.entails(st, off + nn - x):
+                            x = off + nn
+                            progress = True
+                            break
+                if any(e[0] == "loop-writes" for e in st.events):
+                    pass
+                elif not w.entails(st, bpos - x):
+                    R["R7"][1].append((i, "on this successful path the text grows from %r to %r bytes but the bytes from %r on are not "
+                                       "written by this call (writes: %s; path guards %s)"
+                                       % (entry_bpos, bpos, x, ["[%r, +%r)" % (e[1].off, e[2]) for e in writes], st.prov)))
         w.on_instr = on_instr
         w.on_ret = on_ret
         w.run(_init)
         for r, (n, bad) in R.items():
             rid = "C19." + r
+            if r == "R7" and bad:
+                # the gap may be covered by a module-wide "everything above bpos is zero" discipline: that holds only if no
+                # function lowers bpos while leaving the old bytes in place
+                low = _lowers_bpos_keeping_bytes(prog, m)
+                i, msg = bad[0]
+                if low:
+                    chk.refuted(rid, fname, r, i.locstr(), msg + "; and %s lowers bpos without clearing the bytes above it (%s), so those "
+                                "bytes can be stale text where the contract has NULs" % (low[0].name, low[1].locstr()))
+                else:
+                    chk.undecided(rid, fname, r, i.locstr(), msg + "; whether the bytes above bpos are always zero is not established here")
+                continue
             if bad:
                 i, msg = bad[0]
                 chk.refuted(rid, fname, r, i.locstr(), msg, {"all": [b[1][:200] for b in bad[:5]]})
             else:
                 chk.proven(rid, fname, r, f.entry.term.locstr(), "%d obligations on %d paths" % (n, w.paths))
+
+
+def _lowers_bpos_keeping_bytes(prog, m):
+    """a function of the module that stores a constant into <buffer>->bpos and never fills the buffer: (function, store) or None"""
+    for f in m.functions.values():
+        if f.is_decl:
+            continue
+        P = Paths(f, prog)
+        st = [i for i in f.instrs() if i.op == "store" and P.path(i.ops[1]).endswith("->bpos") and i.ops[0].kind == "int"]
+        fills = [i for i in f.instrs() if i.op == "call" and i.callee and (i.callee.startswith("llvm.memset") or i.callee in ("memset", "calloc"))]
+        if st and not fills and f.name != "printbuf_new":
+            return f, st[0]
+    return None
 
 
 def r4(chk, prog, m):
